@@ -196,8 +196,8 @@ pub fn enum_child() -> i32 {
     static BASE: std::sync::atomic::AtomicUsize = std::sync::atomic::AtomicUsize::new(0);
     std::thread::spawn(|| loop {
         std::thread::sleep(std::time::Duration::from_millis(20));
-        let used = vrt::alloc::GLOBAL_TOTAL.load(Ordering::Relaxed).saturating_sub(BASE.load(Ordering::Relaxed));
-        if used > (256 << 20) {
+        let used = vrt::alloc::GLOBAL_ALLOCS.load(Ordering::Relaxed).saturating_sub(BASE.load(Ordering::Relaxed));
+        if used > 5_000_000 {
             let cur = CURRENT.lock().map(|c| c.clone()).unwrap_or_default();
             println!("ENUM-RUNAWAY {}", cur);
             std::process::exit(3);
@@ -245,7 +245,7 @@ pub fn enum_child() -> i32 {
                     if let Ok(mut cur) = CURRENT.lock() {
                         *cur = format!("{} {:?} CASE {}", len, pk, js);
                     }
-                    BASE.store(vrt::alloc::GLOBAL_TOTAL.load(Ordering::Relaxed), Ordering::Relaxed);
+                    BASE.store(vrt::alloc::GLOBAL_ALLOCS.load(Ordering::Relaxed), Ordering::Relaxed);
                     n += 1;
                     if let Err(f) = check_case_pk(&c, pk) {
                         println!("ENUM-FAIL {} {} CASE {}", f.key, vcore::evidence::truncate(&f.msg.replace('\n', " "), 300), js);
@@ -262,6 +262,22 @@ pub fn run(ctx: &Ctx) -> i32 {
     if ctx.args.iter().any(|a| a == "--enum-child") {
         return enum_child();
     }
+    // a decoder that spins over elements that are not there never returns to the oracle; its
+    // allocations give it away (see vrt::total::arm_runaway_guard)
+    fn runaway(case: &str, used: usize) {
+        let root = vcore::evidence::verif_root();
+        let _ = std::fs::create_dir_all(root.join("replays"));
+        let path = root.join("replays").join("C09-total-runaway.json");
+        let case_v: serde_json::Value = serde_json::from_str(case).unwrap_or(serde_json::Value::String(case.to_string()));
+        let body = json!({"property": "C09", "sub": "total", "message": format!("key=alloc-runaway {} allocations were made while decoding this input and the decoder had not returned", used), "case": {"sub": "total", "key": "alloc-runaway", "case": case_v}});
+        let _ = std::fs::write(&path, serde_json::to_string_pretty(&body).unwrap_or_default());
+        println!("VIOLATION property=C09 replay={}", path.display());
+        println!("  [total] key=alloc-runaway more than {} allocations were made while decoding one input and the decoder had not returned (it iterates over a count it has not checked against the input): {}", used, vcore::evidence::truncate(case, 600));
+        use std::io::Write;
+        let _ = std::io::stdout().flush();
+        std::process::exit(1);
+    }
+    vrt::total::arm_runaway_guard(20_000_000, runaway);
     vcore::evidence::quiet_panics();
     let rec = new_rec(ctx, "C09");
     {
@@ -275,6 +291,7 @@ pub fn run(ctx: &Ctx) -> i32 {
     }
     if let Some(rp) = &ctx.replay {
         let case: Case = serde_json::from_value(rp["case"]["case"].clone()).expect("replay case");
+        vrt::total::guard_case(|| serde_json::to_string(&case).unwrap_or_default());
         return match check_case(&case) {
             Ok(()) => {
                 println!("replay: property holds on this case");
@@ -294,6 +311,7 @@ pub fn run(ctx: &Ctx) -> i32 {
     let rounds = 6;
     for round in 0..rounds {
         let res = run_prop(&rec, &format!("c09-{}", round), cases / rounds, arb_case(), |c: &Case| {
+            vrt::total::guard_case(|| serde_json::to_string(c).unwrap_or_default());
             {
                 let mut r = rec.borrow_mut();
                 let (nt, cls) = match &c.src {
@@ -328,6 +346,7 @@ pub fn run(ctx: &Ctx) -> i32 {
                 o => o,
             }
         });
+        vrt::total::guard_idle();
         if let Some((case, f)) = res {
             seen.insert(f.key.clone());
             report(ctx, &rec, "total", &case, &f);
@@ -356,7 +375,7 @@ pub fn run(ctx: &Ctx) -> i32 {
                     let mut it = r.splitn(2, ' ');
                     (it.next().unwrap_or("enum-fail").to_string(), it.next().unwrap_or("").to_string())
                 } else if let Some(r) = l.strip_prefix("ENUM-RUNAWAY ") {
-                    ("alloc-runaway".to_string(), format!("more than 256 MiB were allocated while decoding this {}-byte input and the call had not returned: {}", r.split(' ').next().unwrap_or("?"), r))
+                    ("alloc-runaway".to_string(), format!("more than 5 000 000 allocations were made while decoding this {}-byte input and the call had not returned: {}", r.split(' ').next().unwrap_or("?"), r))
                 } else {
                     continue;
                 };
